@@ -46,6 +46,9 @@ pub enum T01 {
     ValueFirst,
     /// an enum visitor that takes the variant name and drops the variant access
     VariantNameOnly,
+    /// not a target type but an option configuration: the budget-report callback parses the document again
+    /// with a clone of the options it is registered in (every clone shares the callback)
+    ReportCallbackReenters,
 }
 
 macro_rules! wide_struct {
@@ -659,6 +662,57 @@ impl Drop for SourceGuard {
     }
 }
 
+/// The budget-report callback makes a call of its own with a clone of the very options it is registered in.
+fn run_callback_reenters(c: &TotalCase) -> Vec<Obs> {
+    use std::cell::RefCell;
+    use std::rc::Rc;
+    let mut v = Vec::new();
+    let text = String::from_utf8_lossy(&c.bytes.0).into_owned();
+    let mk_opts = || {
+        let slot: Rc<RefCell<Option<serde_saphyr::Options>>> = Rc::new(RefCell::new(None));
+        let depth = Rc::new(std::cell::Cell::new(0u32));
+        let (s2, d2) = (slot.clone(), depth.clone());
+        let opts = c.opts.to_options().with_budget_report(move |_r| {
+            // (the closure guards itself against unbounded recursion; the borrow that matters is the crate's)
+            if d2.get() < 2 {
+                d2.set(d2.get() + 1);
+                let o = s2.borrow().clone();
+                if let Some(o) = o {
+                    let _ = serde_saphyr::from_str_with_options::<serde_json::Value>("a: [1, 2]\n", o);
+                }
+                d2.set(d2.get() - 1);
+            }
+        });
+        *slot.borrow_mut() = Some(opts.clone());
+        opts
+    };
+    let mut push = |name: &'static str, r: Result<Result<(), serde_saphyr::Error>, Abnormal>| {
+        let mut renders = Vec::new();
+        let outcome = abn(r, &mut renders);
+        v.push(Obs { name, outcome, renders });
+    };
+    let o = mk_opts();
+    push("from_str (report callback re-enters)", guard(|| serde_saphyr::from_str_with_options::<serde_json::Value>(&text, o).map(|_| ())));
+    let o = mk_opts();
+    push(
+        "from_multiple (report callback re-enters)",
+        guard(|| serde_saphyr::from_multiple_with_options::<serde_json::Value>(&text, o).map(|_| ())),
+    );
+    let o = mk_opts();
+    let mut rd = SimReader::new(&c.bytes.0, script(c));
+    push(
+        "read_with_options (report callback re-enters)",
+        guard(|| {
+            let it = serde_saphyr::read_with_options::<_, serde_json::Value>(&mut rd, o);
+            for item in it.take(c.bytes.0.len() + 8) {
+                item?;
+            }
+            Ok(())
+        }),
+    );
+    v
+}
+
 pub fn exec(c: &TotalCase, st: &mut Stats) -> Vec<Viol> {
     let mut out = Vec::new();
     // every returned error is also turned into a miette report over the delivered text
@@ -681,6 +735,7 @@ pub fn exec(c: &TotalCase, st: &mut Stats) -> Vec<Viol> {
         T01::NoOpMap => run_owned::<std::collections::BTreeMap<String, NoOpT>>(c, st),
         T01::ValueFirst => run_owned::<ValueFirstT>(c, st),
         T01::VariantNameOnly => run_owned::<Vec<VariantNameT>>(c, st),
+        T01::ReportCallbackReenters => run_callback_reenters(c),
     };
     if matches!(c.target, T01::Fam(Target::Cfg)) {
         obs.extend(run_valid(c));
@@ -969,7 +1024,8 @@ pub fn total(tier: Tier) -> u64 {
         }
 }
 
-const ALL_T01: [T01; 15] = [
+const ALL_T01: [T01; 16] = [
+    T01::ReportCallbackReenters,
     T01::NoOpSeq,
     T01::UnderReadSeq,
     T01::NoOpMap,
